@@ -114,6 +114,14 @@ def run(ctx):
             sfn = site_function(m, k[1])
             construct = k[1].split(" ", 1)[1] if " " in k[1] else "raise"
             construct = construct.replace("slot ", "")
+            if k[0] == "builtins.AssertionError" and _assert_unreachable(
+                    ctx, sfn, k[1]):
+                listed.append({"entry": name, "class": k[0], "site": k[1],
+                               "reason": "no consistent path of the function "
+                               "(callees executed inline) reaches this "
+                               "assertion failure: a defensive check that "
+                               "cannot fire"})
+                continue
             if (sfn, construct) in ALLOWED_SITES:
                 listed.append({"entry": name, "class": k[0], "site": k[1],
                                "reason": ALLOWED_SITES[(sfn, construct)]})
@@ -195,6 +203,46 @@ def run(ctx):
     _r7_validator(ctx)
     _r10_messages(ctx)
     _r8_unpack(ctx)
+
+
+_ASSERT_CACHE = {}
+
+
+def _assert_unreachable(ctx, sfn, site):
+    """True when no consistent interpreted path of function `sfn` (repository
+    callees executed inline, depth 2) ends in the AssertionError raised at
+    `site` ("file:line ...")."""
+    from zcstatic import absint as A
+    m, P = ctx.model, ctx.program
+    fi = m.functions.get(sfn)
+    if fi is None:
+        return False
+    try:
+        line = int(site.split(" ")[0].rsplit(":", 1)[1])
+    except (ValueError, IndexError):
+        return False
+    key = (sfn, line)
+    if key in _ASSERT_CACHE:
+        return _ASSERT_CACHE[key]
+    res = False
+    try:
+        paths = A.Interp(fi, P, inline=lambda f: True, max_inline=2,
+                         try_raises=False).paths()
+        hit = False
+        for p in paths:
+            if p.outcome[0] != "raise" or not str(p.outcome[1]).endswith(
+                    "AssertionError"):
+                continue
+            for e in p.effects:
+                if e[0] == "raise" and getattr(e[-1], "lineno", None) == line:
+                    hit = True
+            if not any(e[0] == "raise" for e in p.effects):
+                hit = True      # an `assert` statement: no raise effect
+        res = not hit and len(paths) > 0
+    except Exception:
+        res = False
+    _ASSERT_CACHE[key] = res
+    return res
 
 
 def _install_specialisations(ctx, ef):
